@@ -515,8 +515,21 @@ func parent(id, tier string) int {
 	exh, _ := p.(interface {
 		Exhaustive(tier string) (bool, string)
 	})
+	// "evaluations" counts the executions / inputs the oracle judged, not the case indexes: a case index
+	// bundles many of them (paths, lines, expressions, strings ...). Drivers name the feature counters
+	// that count them.
+	evaluations := merged.Evaluations
+	if ef, ok := p.(interface{ EvalFeatures() []string }); ok {
+		var sum int64
+		for _, k := range ef.EvalFeatures() {
+			sum += merged.Features[k]
+		}
+		if sum > evaluations {
+			evaluations = sum
+		}
+	}
 	cov := map[string]any{
-		"evaluations":               merged.Evaluations,
+		"evaluations":               evaluations,
 		"distinct_nontrivial":       distinct,
 		"rule":                      p.Rule(),
 		"samples":                   samples,
@@ -550,7 +563,7 @@ func parent(id, tier string) int {
 	}
 
 	// Report.
-	fmt.Printf("%s %s seed=%d: %d cases, %d distinct non-trivial, %d children, %.1fs\n", id, tier, seed, merged.Evaluations, distinct, children, time.Since(start).Seconds())
+	fmt.Printf("%s %s seed=%d: %d cases, %d judged executions, %d distinct non-trivial, %d children, %.1fs\n", id, tier, seed, merged.Evaluations, evaluations, distinct, children, time.Since(start).Seconds())
 	fmt.Printf("  events: %s\n", fmtMap(merged.Events))
 	fmt.Printf("  features: %s\n", fmtMap(merged.Features))
 	if len(merged.Max) > 0 {
